@@ -317,3 +317,190 @@ def c09(ck):
 
 
 CHECKS = {"C09": c09}
+
+
+# ---------------------------------------------------------------------------------------------
+def c08_corpora(rng, quick):
+    from c08gen import Corpus
+    S = ("struct", [("a", ("int",)), ("b", ("string",)), ("o", ("option", ("string",))), ("n", ("struct", [("x", ("bool",)), ("y", ("option", ("int",)))])),
+                    ("e", ("enum", ["red", "green"])), ("l", ("array", ("int",))), ("m", ("dict", ("string",))), ("s", ("set",)), ("any", ("object",)), ("f", ("float",)),
+                    ("type", ("bool",)), ("fn", ("option", ("array", ("string",))))])
+    E = ("enum", ["one", "two", "three"])
+    N = ("struct", [("s", ("name", "S")), ("list", ("array", ("name", "S"))), ("opt", ("option", ("name", "S"))), ("map", ("dict", ("name", "S"))), ("e", ("name", "E"))])
+    echo = [("bool",), ("int",), ("float",), ("string",), ("object",), ("name", "S"), ("name", "E"), ("name", "N"), ("option", ("name", "S")),
+            ("array", ("option", ("int",))), ("dict", ("array", ("name", "E"))), ("set",), ("struct", [("a", ("int",)), ("b", ("struct", [("c", ("option", ("enum", ["d", "e"])))]))]),
+            ("option", ("array", ("dict", ("option", ("string",))))), ("array", ("array", ("struct", [("k", ("string",)), ("v", ("option", ("object",)))]))),
+            ("dict", ("dict", ("int",))), ("option", ("dict", ("name", "E")))]
+    multi = [[("a", ("int",)), ("b", ("option", ("string",))), ("c", ("name", "E"))],
+             [("mod", ("bool",)), ("match", ("option", ("name", "N"))), ("x_y", ("array", ("float",)))]]
+    out = [("c8a", Corpus("org.example.c8a", [("S", S), ("E", E), ("N", N)], echo, multi))]
+    if not quick:
+        # random corpora
+        pool = [("bool",), ("int",), ("float",), ("string",), ("object",), ("set",)]
+        for k in range(3):
+            def rt(d):
+                r = rng.random()
+                if d <= 0 or r < 0.35:
+                    return rng.choice(pool + [("name", "T0")])
+                if r < 0.5:
+                    return ("array", rt(d - 1))
+                if r < 0.62:
+                    return ("dict", rt(d - 1))
+                if r < 0.75:
+                    inner = rt(d - 1)
+                    return inner if inner[0] == "option" else ("option", inner)
+                if r < 0.9:
+                    return ("struct", [(f, rt(d - 1)) for f in rng.sample(["a", "b", "c", "type", "impl", "x1"], rng.randint(0, 3))])
+                return ("enum", rng.sample(["p", "q", "r", "loop"], rng.randint(1, 3)))
+            T0 = ("struct", [("q", ("int",)), ("w", ("option", ("string",)))])
+            out.append(("c8r%d" % k, Corpus("org.example.c8r%d" % k, [("T0", T0)], [rt(3) for _ in range(8)], [])))
+    return out
+
+
+def c08(ck):
+    import c08gen
+    rng = random.Random(ck.seed)
+    quick = ck.tier == "quick"
+    model_ok, ok = prep(ck, "C08.v", ("h_gen",))
+    if not ok:
+        return
+    ck.rule = ("interface definitions covering every type constructor (nested, keyword-like field names, typedef references) as Echo / Multi / Fail methods; the real generator's module is compiled with a "
+               "harness-written server implementation and client driver and exercised over a socketpair with generated values (boundary ints, floats, empty/non-ASCII strings, empty and nested collections, "
+               "every optional set and unset) x call modes {call, more, oneway}; raw requests with missing / ill-typed parameters; non-trivial = all; distinct by (method, mode, value)")
+    corpora = c08_corpora(rng, quick)
+    gl = ["c%d gen %s" % (i, hx(c.text())) for i, (mod, c) in enumerate(corpora)]
+    gi = run_lines(harness_bin("h_gen"), gl)
+    gm = run_lines(DRIVER, [l.replace(" gen ", " gen_model ", 1) for l in gl]) if model_ok else {}
+    mods, defs_by_mod = [], {}
+    for i, (mod, c) in enumerate(corpora):
+        a = gi["c%d" % i]
+        if not a.startswith("ok "):
+            ck.failures.append({"what": "generator failed on a valid definition", "idl": c.text()[:800], "result": a[:200]})
+            return
+        code = unhx(a.split(" ")[1]).decode("utf-8")
+        defs = parse_defs(code)
+        if ("c%d" % i) in gm and gm["c%d" % i].startswith("ok "):
+            mj = json.loads(unhx(gm["c%d" % i].split(" ")[1]).decode("utf-8"))
+            if strip_skip(defs) != strip_skip(mj["defs"]):
+                ck.tie_broken.append("emitted definitions differ from the model for corpus %s" % mod)
+        mods.append((mod, code))
+        defs_by_mod[mod] = defs
+    main_rs = c08gen.driver_main(corpora, defs_by_mod)
+    d = write_gencrate(mods, name="gen8", bin_main=main_rs.replace("mod %s;" % corpora[0][0], "mod %s;" % corpora[0][0]))
+    # the module files are used by the binary; keep lib.rs minimal
+    write_if_changed(os.path.join(d, "src", "lib.rs"), "")
+    rc, log = cargo(d, ["build", "--bin", "gen8", "--quiet"])
+    if rc != 0:
+        ck.failures.append({"what": "the generated bindings (or the harness driver written against them) do not compile",
+                            "log": "\n".join([l for l in log.splitlines() if l.startswith(("error", "  -->"))][:12])})
+        return
+    binp = os.path.join(BUILD, "target-gen", "debug", "gen8")
+    lines, meta = [], {}
+    n = 0
+    for mod, c in corpora:
+        names = [("Echo%d" % i, [("v", t)], "echo") for i, t in enumerate(c.echo)] + [("Multi%d" % i, fs, "echo") for i, fs in enumerate(c.multi)] + \
+                [("Fail%d" % i, [("v", t)], "fail") for i, t in enumerate(c.err_types)]
+        for mname, fs, kind in names:
+            for _ in range(3 if quick else 12):
+                args = {f: c08gen.gen_value(rng, t, c.env) for f, t in fs}
+                # an unset optional parameter may be sent as absent
+                send = {k: v for k, v in args.items() if not (v is None and dict(fs)[k][0] == "option" and rng.random() < 0.5)}
+                mode = rng.choice(["call", "call", "more", "oneway"]) if kind == "echo" else "call"
+                cid = "v%d" % n
+                n += 1
+                lines.append("%s call %s %s %s %s" % (cid, mod, mname, mode, hx(json.dumps(send, ensure_ascii=False))))
+                meta[cid] = (mod, c, mname, fs, kind, mode, args)
+        # raw requests: missing / ill-typed parameters must be answered with InvalidParameter
+        for mname, fs, kind in names[:(6 if quick else len(names))]:
+            for badp in ({}, {"v": [{"zz": 1}]}, {"v": "wrong"} if fs[0][1][0] != "string" and fs[0][1][0] != "object" and fs[0][1] != ("name", "E") and fs[0][1][0] != "option" else {"v": 12.5}, None):
+                if fs[0][1][0] in ("object",) or (fs[0][1][0] == "option" and badp in ({}, None)):
+                    continue
+                if fs[0][1][0] == "option" and fs[0][1][1][0] == "object":
+                    continue
+                r = {"method": "%s.%s" % (c.iface, mname)}
+                if badp is not None:
+                    r["parameters"] = badp
+                cid = "v%d" % n
+                n += 1
+                lines.append("%s raw %s" % (cid, hx(json.dumps(r).encode() + b"\0")))
+                meta[cid] = (mod, c, mname, fs, "raw", "raw", badp)
+    impl = run_lines(binp, lines, shards=6, timeout=600)
+    ml = []
+    for cid, (mod, c, mname, fs, kind, mode, args) in meta.items():
+        if kind != "raw":
+            ml.append("%s codec %s in %s %s" % (cid, hx(c.text()), mname, hx(json.dumps(args, ensure_ascii=False))))
+        else:
+            ml.append("%s codec %s in %s %s" % (cid, hx(c.text()), mname, hx(json.dumps(args if args is not None else {}))))
+    model = run_lines(DRIVER, ml, shards=6, timeout=600) if model_ok else {}
+    from svcgen import loads, canon_num
+    nd = 0
+    for cid, (mod, c, mname, fs, kind, mode, args) in meta.items():
+        ck.case(lines[int(cid[1:])].split(" ", 1)[1], sample={"method": mname, "mode": mode, "args": args} if rng.random() < 0.02 and len(ck.samples) < 6 else None)
+        ck.count("kind=%s/%s" % (kind, mode))
+        a = impl[cid]
+        f = fields(a)
+        desc = {"idl_method": "%s.%s(%s)" % (c.iface, mname, ", ".join("%s: %s" % (x, c08gen.ty_text(t)) for x, t in fs)), "mode": mode, "args": args}
+        if "raw_reply" not in f:
+            ck.failures.append(dict(desc, what="generated client/server run failed", result=a[:300]))
+            continue
+        if kind == "raw":
+            reps = [loads(x.decode("utf-8")) for x in unhx(f["raw_reply"]).split(b"\0")[:-1]]
+            if len(reps) != 1 or reps[0].get("error") != "org.varlink.service.InvalidParameter":
+                ck.failures.append(dict(desc, what="a request with missing or ill-typed parameters was not answered with InvalidParameter", replies=reps))
+            if cid in model and model[cid].startswith("ok"):
+                nd += 1
+                if nd <= 5:
+                    ck.tie_broken.append("model accepts parameters the generated server rejects: %s %s" % (mname, json.dumps(args)))
+            continue
+        struct_t = ("struct", fs)
+        want = canon_num(c08gen.expected_wire(struct_t, args, c.env))
+        reqs = [loads(x.decode("utf-8")) for x in unhx(f["req"]).split(b"\0")[:-1]]
+        if len(reqs) != 1:
+            ck.failures.append(dict(desc, what="client did not send exactly one request", requests=reqs))
+            continue
+        rq = reqs[0]
+        if rq.get("method") != "%s.%s" % (c.iface, mname):
+            ck.failures.append(dict(desc, what="request method is not <interface>.<Method>", got=rq.get("method")))
+        got_params = c08gen.drop_nulls(struct_t, rq.get("parameters", {}), c.env)
+        if got_params != want:
+            ck.failures.append(dict(desc, what="request parameters are not the IDL field names with values in the IDL's JSON shape", got=rq.get("parameters"), expected=want))
+        if set((rq.get("parameters") or {}).keys()) - set(x for x, _ in fs):
+            ck.failures.append(dict(desc, what="request carries members that are not IDL field names", got=rq.get("parameters")))
+        if (mode == "more") != (rq.get("more") is True) or (mode == "oneway") != (rq.get("oneway") is True):
+            ck.failures.append(dict(desc, what="call mode flags wrong on the wire", got=rq))
+        seen = json.loads(unhx(f["seen"]).decode("utf-8"))
+        if len(seen) != 1 or c08gen.drop_nulls(struct_t, canon_num(seen[0]), c.env) != want:
+            ck.failures.append(dict(desc, what="the server implementation did not receive values equal to those sent", seen=seen, expected=want))
+        res = f.get("res", "")
+        if mode == "oneway":
+            if res != "unit" or unhx(f["raw_reply"]) != b"":
+                ck.failures.append(dict(desc, what="oneway call through generated bindings got a reply / did not return unit", res=res))
+        elif kind == "echo":
+            items = res.split(";")
+            last = items[-1]
+            if not last.startswith("ok:") or c08gen.drop_nulls(struct_t, loads(unhx(last[3:]).decode("utf-8")), c.env) != want:
+                ck.failures.append(dict(desc, what="the reply did not arrive at the client equal to what the server sent", res=res[:300], expected=want))
+        else:
+            i = int(mname[4:])
+            if not res.startswith("err:Err%d:" % i) or c08gen.drop_nulls(struct_t, loads(unhx(res.split(":")[2]).decode("utf-8")), c.env) != want:
+                ck.failures.append(dict(desc, what="a declared error did not arrive as the matching error variant with equal parameters", res=res[:300], expected=want))
+            rr = [loads(x.decode("utf-8")) for x in unhx(f["raw_reply"]).split(b"\0")[:-1]]
+            if not rr or rr[0].get("error") != "%s.Err%d" % (c.iface, i):
+                ck.failures.append(dict(desc, what="error reply name is not <interface>.<Error>", got=rr))
+        # model: reading the arguments against the method's input struct and writing them back gives the wire parameters
+        if cid in model:
+            m = model[cid]
+            if not m.startswith("ok "):
+                nd += 1
+                if nd <= 5:
+                    ck.tie_broken.append("codec model rejects arguments the generated bindings accept: %s %s -> %s" % (mname, json.dumps(args)[:200], m[:60]))
+            else:
+                mf = fields(m)
+                mw = c08gen.drop_nulls(struct_t, loads(unhx(mf["wire"]).decode("utf-8")), c.env)
+                if mw != got_params or unhx(mf["method"]).decode() != rq.get("method"):
+                    nd += 1
+                    if nd <= 5:
+                        ck.tie_broken.append("codec model and generated client disagree on the wire form: %s model=%s impl=%s" % (mname, json.dumps(mw)[:300], json.dumps(got_params)[:300]))
+
+
+CHECKS["C08"] = c08
